@@ -301,6 +301,8 @@ pub struct PropInfo {
     pub rule: &'static str,
     pub assumptions: &'static [&'static str],
     pub needs_mock: bool,
+    /// batches of fresh worker processes (see run_parent)
+    pub rounds: u32,
 }
 
 pub fn verif_root() -> PathBuf {
@@ -355,8 +357,19 @@ pub fn run_parent(info: &PropInfo, tier: Tier, seed: u64, workers: u32) -> Paren
     let _ = fs::remove_dir_all(&dir);
     fs::create_dir_all(&dir).expect("work dir");
     let exe = std::env::current_exe().expect("current exe");
+    // `rounds` batches of `workers` fresh processes: a defect that depends on what a process did
+    // first (process-wide caches, statics) gets rounds x workers independent chances to show
+    let parallel = workers;
+    let workers = workers * info.rounds.max(1);
     let mut children = vec![];
+    let mut running: Vec<(u32, std::process::Child)> = vec![];
+    let mut finished: Vec<(u32, std::process::ExitStatus)> = vec![];
     for i in 0..workers {
+        if running.len() as u32 >= parallel {
+            let (j, mut c) = running.remove(0);
+            let st = c.wait().expect("wait");
+            finished.push((j, st));
+        }
         let child = std::process::Command::new(&exe)
             .arg("worker")
             .arg(info.id)
@@ -368,15 +381,19 @@ pub fn run_parent(info: &PropInfo, tier: Tier, seed: u64, workers: u32) -> Paren
             .stdin(std::process::Stdio::null())
             .spawn()
             .expect("spawn worker");
-        children.push(child);
+        running.push((i, child));
     }
+    for (j, mut c) in running {
+        let st = c.wait().expect("wait");
+        finished.push((j, st));
+    }
+    finished.sort_by_key(|(j, _)| *j);
+    children.extend(finished);
     let mut merged = WorkerResult::default();
     let mut hashes: HashSet<u64> = HashSet::new();
     let mut failures: Vec<(u32, FailureReport)> = vec![];
     let mut inconclusive: Vec<String> = vec![];
-    for (i, mut child) in children.into_iter().enumerate() {
-        let status = child.wait().expect("wait");
-        let i = i as u32;
+    for (i, status) in children.into_iter() {
         let res_path = dir.join(format!("result_{}.json", i));
         if status.success() {
             match fs::read_to_string(&res_path).ok().and_then(|t| serde_json::from_str::<WorkerResult>(&t).ok()) {
